@@ -23,6 +23,8 @@ impl Monitor for C04 {
             gen("exhaustive-depth3", NSYM * NSYM * NSYM * tier.pick(1, 6, 0)),
             gen("exhaustive-depth4", if tier == Tier::Thorough { NSYM * NSYM * NSYM * NSYM } else { 0 }),
             gen("random-long", tier.pick(3_000, 200_000, 10)),
+            gen("answer-fill", tier.pick(4_000, 200_000, 4)),
+            gen("single-channel", 9 * 3 * 16 * tier.pick(2, 20, 0)),
         ]
     }
     fn rule(&self) -> String {
@@ -70,6 +72,17 @@ impl Monitor for C04 {
                 let front = FRONTS[rng.below(3) as usize];
                 let abp = rng.bool();
                 run_history(reg, front, abp, &syms, rng, col, "exhaustive");
+            }
+            "answer-fill" => {
+                let reg = regions::ALL[(idx % 9) as usize];
+                let front = FRONTS[((idx / 9) % 3) as usize];
+                answer_fill(reg, front, rng, col);
+            }
+            "single-channel" => {
+                let reg = regions::ALL[(idx % 9) as usize];
+                let front = FRONTS[((idx / 9) % 3) as usize];
+                let ch = ((idx / 27) % 16) as u8;
+                single_channel(reg, front, ch, rng, col);
             }
             _ => {
                 let reg = regions::ALL[(idx % 9) as usize];
@@ -151,7 +164,9 @@ impl Sym {
 /// A hostile but well-formed stream of MAC commands: every handled CID with arbitrary field
 /// bytes (reserved and out-of-range values included).
 pub fn hostile_mac(reg: Reg, rng: &mut Prng, force: Option<(usize, u8)>) -> Vec<u8> {
-    let n = rng.range(1, 4);
+    // mostly short streams; one in four is long enough to fill (and overflow) the 15 bytes of
+    // answers the next uplink can carry
+    let n = if rng.chance(1, 4) { rng.range(5, 12) } else { rng.range(1, 4) };
     let mut out = vec![];
     for k in 0..n {
         let kind = rng.below(10);
@@ -462,6 +477,105 @@ fn report(reg: Reg, front: Front, abp: bool, tag: &str, s: &Sym, m: &str, l: &st
         let t = Trapped { msg: m.to_string(), loc: l.to_string() };
         col.violation(&format!("C04|panic|{}|{}|{}", short_loc(l), t.kind(), sym_class), "a call into the stack panicked", detail);
     }
+}
+
+/// Downlinks whose answers add up to 12..=18 bytes (around the 15-byte limit of the next uplink),
+/// every total and every last-answer size, in FOpts-sized and port-0 carriers.
+fn answer_fill(reg: Reg, front: Front, rng: &mut Prng, col: &mut Collector) {
+    let creds = default_creds(rng);
+    let opts = DevOpts { rng_seed: Some(rng.next_u64()), rng_start: 0, bias: None };
+    let dev: Dev = Dev::new(front, reg, creds, &opts);
+    let mut w = World { dev, reg, front, last_good: None };
+    w.dev.join_abp(rng.arr(), rng.arr(), rng.next_u32());
+    col.event("abp_histories");
+    // answer sizes: DevStatusAns 3, LinkADRAns/RXParamSetupAns/NewChannelAns/DlChannelAns 2, RXTimingSetupAns 1
+    let target = rng.range(12, 18) as usize;
+    let mut cmds: Vec<u8> = vec![];
+    let mut total = 0usize;
+    let mut trace = vec![];
+    while total < target {
+        let (c, sz): (Vec<u8>, usize) = match rng.below(4) {
+            0 => (dev_status_req(), 3),
+            1 => (rx_timing_setup_req(rng.below(16) as u8), 1),
+            2 => (link_adr_req(15, 15, 0xFFFF, if reg.fixed() { 6 } else { 0 }, 1), 2),
+            _ => (rx_param_setup_req(reg.rx2_default().1, reg.rx2_default().0 / 100), 2),
+        };
+        // separate LinkADRReqs so that each gets its own answer
+        if c[0] == 0x03 && cmds.len() >= 5 && cmds[cmds.len() - 5] == 0x03 {
+            continue;
+        }
+        cmds.extend(c);
+        total += sz;
+    }
+    trace.push(format!("answers total {} bytes: {}", total, hex(&cmds)));
+    col.event("hostile_mac_accepted");
+    let net = w.net().unwrap();
+    let f = net.mac_downlink(0, &cmds, true);
+    let mut script = Script::silent();
+    if rng.bool() {
+        script.rx1.push(f);
+    } else {
+        script.rx2.push(f);
+    }
+    let silent = Script::silent();
+    for i in 0..3 {
+        let payload = [i as u8];
+        // (a port 0 uplink carries the answers as its payload: no application data)
+        let (data, port): (&[u8], u8) = if i == 2 { (&[], 0) } else { (&payload, 1) };
+        let r = w.dev.transact(Action::Send { data, port, confirmed: false }, if i == 0 { &script } else { &silent });
+        col.event("calls_returned");
+        if let Resp::Panic(m, l) = &r {
+            report(reg, front, true, "answer-fill", &Sym::Rx1(Hit::HostileMac), m, l, &trace, i, col);
+            return;
+        }
+    }
+    col.event("still_transmits");
+    col.eval(&format!("{}|{}|answer-fill|total={}", front.name(), reg.name(), total));
+}
+
+/// Leaves exactly one channel enabled (every index of the plan in turn) and transmits:
+/// the selection loop must find it.
+fn single_channel(reg: Reg, front: Front, ch: u8, rng: &mut Prng, col: &mut Collector) {
+    let creds = default_creds(rng);
+    let opts = DevOpts { rng_seed: if rng.bool() { Some(rng.next_u64()) } else { None }, rng_start: rng.next_u32(), bias: None };
+    let dev: Dev = Dev::new(front, reg, creds, &opts);
+    let mut w = World { dev, reg, front, last_good: None };
+    w.dev.join_abp(rng.arr(), rng.arr(), rng.next_u32());
+    col.event("abp_histories");
+    let net = w.net().unwrap();
+    let mut cmds: Vec<u8> = vec![];
+    if reg.fixed() {
+        // fixed plans: a bank of 125 kHz channels reduced to two neighbours, or one 500 kHz channel
+        let k = ch as u32 % 8;
+        if rng.bool() {
+            cmds.extend(link_adr_req(if reg == Reg::US915 { 4 } else { 6 }, 15, 1 << k, 7, 1));
+        } else {
+            let bank = rng.below(4) as u8;
+            cmds.extend(link_adr_req(15, 15, 0, 7, 1));
+            cmds.extend(link_adr_req(0, 15, 0b11 << (ch % 15), bank, 1));
+        }
+    } else {
+        let (lo, hi) = reg.inner_band();
+        let f = (lo + rng.below(((hi - lo) / 100) as u64) as u32 * 100) / 100;
+        if (ch as usize) >= reg.default_channels().len() {
+            cmds.extend(new_channel_req(ch, f, 0x50));
+        }
+        cmds.extend(link_adr_req(15, 15, 1 << ch, 0, 1));
+    }
+    let trace = vec![format!("single channel {}: {}", ch, hex(&cmds))];
+    let f = net.mac_downlink(0, &cmds, cmds.len() <= 15);
+    let silent = Script::silent();
+    let script = Script::rx1(f);
+    for i in 0..6 {
+        let r = w.dev.transact(Action::Send { data: &[i as u8], port: 1, confirmed: false }, if i == 0 { &script } else { &silent });
+        col.event("calls_returned");
+        if let Resp::Panic(m, l) = &r {
+            report(reg, front, true, "single-channel", &Sym::SendU, m, l, &trace, i, col);
+            return;
+        }
+    }
+    col.event("still_transmits");
+    col.eval(&format!("{}|{}|single-channel|{}", front.name(), reg.name(), ch));
 }
 
 fn mac_sweep(reg: Reg, front: Front, val: u8, rng: &mut Prng, col: &mut Collector) {
